@@ -1476,6 +1476,60 @@ def rule_r7(chk, prog):
                   nontrivial=True)
 
 
+def rule_r1_lengths(chk, prog):
+    """Part of C12.R1 that does not depend on the shape of the records:
+    whatever frames an encoded text in the pickled state counts bytes."""
+    m = prog.mod('nodes')
+    w = m.func('Node.__getstate__')
+    where = 'nodes.Node.__getstate__'
+    defs = {}
+    for st in walk_no_nested(w):
+        if isinstance(st, ast.Assign) and len(st.targets) == 1 and \
+                isinstance(st.targets[0], ast.Name):
+            defs.setdefault(st.targets[0].id, []).append(st.value)
+
+    def kind(e, depth=0):
+        """'str' / 'bytes' / None for an expression of the writer"""
+        if isinstance(e, ast.Constant):
+            return 'bytes' if isinstance(e.value, bytes) else (
+                'str' if isinstance(e.value, str) else None)
+        if isinstance(e, ast.Call) and isinstance(e.func, ast.Attribute):
+            if e.func.attr == 'encode':
+                return 'bytes'
+            if e.func.attr == 'decode':
+                return 'str'
+        if isinstance(e, ast.Call) and call_name(e) in ('bytes',
+                                                        'bytearray'):
+            return 'bytes'
+        if isinstance(e, ast.Call) and call_name(e) == 'str':
+            return 'str'
+        if isinstance(e, ast.Attribute) and e.attr == 'data':
+            # the text of a leaf (the writer only measures leaves)
+            return 'str'
+        if isinstance(e, ast.Name) and depth < 4:
+            ks = {kind(d, depth + 1) for d in defs.get(e.id, [])}
+            if len(ks) == 1:
+                return ks.pop()
+        return None
+
+    n = 0
+    for c in ast.walk(w):
+        if not (isinstance(c, ast.Call) and call_name(c) == 'len'
+                and len(c.args) == 1):
+            continue
+        k = kind(c.args[0])
+        if k is None:
+            continue
+        n += 1
+        chk.check('C12.R1', where, f'{unparse(c)} measures {k}', k == 'bytes',
+                  f'"{unparse(c)}" is the length of a text in characters; '
+                  'what is written to the state is its UTF-8 encoding: for '
+                  'non-ASCII leaves the reader, which cuts the state in '
+                  'bytes, gets a truncated text (or fails to decode it)',
+                  loc=m.loc(c), nontrivial=True)
+    chk.floor('C12.R1', 'measured texts in the pickle writer', n, 1)
+
+
 def rule_r7_contains(chk, prog):
     """Second half of C12.R7: membership."""
     m = prog.mod('nodes')
@@ -1540,6 +1594,7 @@ def run(tier):
     chk.guard(rule_r4, chk, prog)
     chk.guard(rule_r5, chk, prog)
     chk.guard(rule_r5_depth, chk, prog)
+    chk.guard(rule_r1_lengths, chk, prog)
     chk.guard(rule_r7, chk, prog)
     chk.guard(rule_r7_contains, chk, prog)
     # "copying yields an equal tree with fresh identities": reduplicate is
